@@ -148,9 +148,15 @@ type C18Twin struct {
 	st     *Stats
 	twin   *chain.Replica
 	inited bool
+	Prop   string
+	Rule   string
 }
 
-func NewC18Twin() *C18Twin      { return &C18Twin{st: NewStats("C18")} }
+func NewC18Twin() *C18Twin { return &C18Twin{st: NewStats("C18"), Prop: "C18", Rule: "C18.failed_tx_rolled_back"} }
+
+// NewTwinFor builds the same substitution twin reporting under another property (C17 uses it for
+// rejected governance-only / owner-scoped messages sent through real blocks).
+func NewTwinFor(prop, rule string) *C18Twin { return &C18Twin{st: NewStats(prop), Prop: prop, Rule: rule} }
 func (m *C18Twin) Stats() *Stats { return m.st }
 func (m *C18Twin) Close() {
 	if m.twin != nil {
@@ -193,7 +199,7 @@ func (m *C18Twin) feed(w *chain.World, blk *chain.BlockRecord) {
 		}
 	}
 	if err != nil {
-		w.Report(chain.Violation{Property: "C18", Rule: "C18.failed_tx_rolled_back", Scope: sc("kind", "twin_failed"), Ops: kinds, Height: blk.Height, Detail: fmt.Sprintf("height %d: twin failed: %v", blk.Height, err)})
+		w.Report(chain.Violation{Property: m.Prop, Rule: m.Rule, Scope: sc("kind", "twin_failed"), Ops: kinds, Height: blk.Height, Detail: fmt.Sprintf("height %d: twin failed: %v", blk.Height, err)})
 		return
 	}
 	if !bytes.Equal(res.AppHash, blk.AppHash) {
@@ -202,7 +208,7 @@ func (m *C18Twin) feed(w *chain.World, blk *chain.BlockRecord) {
 				kinds = append(kinds, "!substitute_succeeded")
 			}
 		}
-		w.Report(chain.Violation{Property: "C18", Rule: "C18.failed_tx_rolled_back", Scope: sc("msgs", strings.Join(kinds, ",")), Ops: kinds, Relation: "apphash_differs_from_substitution_twin", Height: blk.Height,
+		w.Report(chain.Violation{Property: m.Prop, Rule: m.Rule, Scope: sc("msgs", strings.Join(kinds, ",")), Ops: kinds, Relation: "apphash_differs_from_substitution_twin", Height: blk.Height,
 			Detail: fmt.Sprintf("height %d: AppHash %X differs from the twin's %X in which the failed txs %v were replaced by a trivially failing tx of the same signer/sequence/fee -> a failed tx left something behind", blk.Height, blk.AppHash, res.AppHash, kinds)})
 		m.twin.Dead = "diverged"
 	}
